@@ -1,5 +1,5 @@
 /* C12 tier B: the tok class produces the token list of the quoting grammar modulo its trimming, and agrees
- * with spiftool_split token for token modulo that trimming, for every input of length <= 5 (quick) / 7
+ * with spiftool_split token for token modulo that trimming, for every input of length <= 4 (quick) / 6
  * (thorough) over {a, b, space, ':', ''', '"', '\'} and the delimiter sets NULL / ":" / " :" (chosen
  * nondeterministically inside each unit).  Memory-safety obligations of everything executed (tok.c, str.c,
  * dlinked_list.c, obj.c, strings.c) are part of each unit; input and delimiter strings end at the last byte
@@ -36,12 +36,14 @@
 
 /*@unit
 name: tok.clean
-define: V_CLASS=0
+define: V_CLASS=0, VERIF_MAXLEN_Q=4, VERIF_MAXLEN_T=6, VS_OBJS=1024
 src: tok.c, str.c, dlinked_list.c, obj.c
 tier: B
-bound: input length <= 5 (quick tier) / <= 7 (thorough tier) over {a,b,space,:,',",\}; delimiter sets NULL, ":", " :"; inputs of class clean; loops unwound 8 / 10
-unwind: 8
-unwind_thorough: 10
+bound: input length <= 4 (quick tier) / <= 6 (thorough tier) over {a,b,space,:,',",\}; delimiter sets NULL, ":", " :"; inputs of class clean; loops unwound 6 / 8 (token loop 5)
+unwind: 6
+unwind_thorough: 8
+flags: --unwindset spif_tok_eval.5:5
+objbits: 10
 backend: cadical
 timeout: 900
 timeout_thorough: 4000
@@ -49,12 +51,14 @@ mem: 16
 */
 /*@unit
 name: tok.mixed
-define: V_CLASS=1
+define: V_CLASS=1, VERIF_MAXLEN_Q=4, VERIF_MAXLEN_T=6, VS_OBJS=1024
 src: tok.c, str.c, dlinked_list.c, obj.c
 tier: B
-bound: input length <= 5 (quick tier) / <= 7 (thorough tier) over {a,b,space,:,',",\}; delimiter sets NULL, ":", " :"; inputs of class mixed; loops unwound 8 / 10
-unwind: 8
-unwind_thorough: 10
+bound: input length <= 4 (quick tier) / <= 6 (thorough tier) over {a,b,space,:,',",\}; delimiter sets NULL, ":", " :"; inputs of class mixed; loops unwound 6 / 8 (token loop 5)
+unwind: 6
+unwind_thorough: 8
+flags: --unwindset spif_tok_eval.5:5
+objbits: 10
 backend: cadical
 timeout: 900
 timeout_thorough: 4000
@@ -62,12 +66,14 @@ mem: 16
 */
 /*@unit
 name: tok.trailbs
-define: V_CLASS=2
+define: V_CLASS=2, VERIF_MAXLEN_Q=4, VERIF_MAXLEN_T=6, VS_OBJS=1024
 src: tok.c, str.c, dlinked_list.c, obj.c
 tier: B
-bound: input length <= 5 (quick tier) / <= 7 (thorough tier) over {a,b,space,:,',",\}; delimiter sets ":", " :"; inputs of class trailbs; loops unwound 8 / 10
-unwind: 8
-unwind_thorough: 10
+bound: input length <= 4 (quick tier) / <= 6 (thorough tier) over {a,b,space,:,',",\}; delimiter sets ":", " :"; inputs of class trailbs; loops unwound 6 / 8 (token loop 5)
+unwind: 6
+unwind_thorough: 8
+flags: --unwindset spif_tok_eval.5:5
+objbits: 10
 backend: cadical
 timeout: 900
 timeout_thorough: 4000
@@ -75,12 +81,14 @@ mem: 16
 */
 /*@unit
 name: tok.empty
-define: V_CLASS=3
+define: V_CLASS=3, VERIF_MAXLEN_Q=4, VERIF_MAXLEN_T=6, VS_OBJS=1024
 src: tok.c, str.c, dlinked_list.c, obj.c
 tier: B
-bound: input length <= 5 (quick tier) / <= 7 (thorough tier) over {a,b,space,:,',",\}; delimiter sets NULL, ":", " :"; inputs of class empty; loops unwound 8 / 10
-unwind: 8
-unwind_thorough: 10
+bound: input length <= 4 (quick tier) / <= 6 (thorough tier) over {a,b,space,:,',",\}; delimiter sets NULL, ":", " :"; inputs of class empty; loops unwound 6 / 8 (token loop 5)
+unwind: 6
+unwind_thorough: 8
+flags: --unwindset spif_tok_eval.5:5
+objbits: 10
 backend: cadical
 timeout: 900
 timeout_thorough: 4000
@@ -88,12 +96,14 @@ mem: 16
 */
 /*@unit
 name: tok.blank
-define: V_CLASS=4
+define: V_CLASS=4, VERIF_MAXLEN_Q=4, VERIF_MAXLEN_T=6, VS_OBJS=1024
 src: tok.c, str.c, dlinked_list.c, obj.c
 tier: B
-bound: input length <= 5 (quick tier) / <= 7 (thorough tier) over {a,b,space,:,',",\}; delimiter sets NULL, ":", " :"; inputs of class blank; loops unwound 8 / 10
-unwind: 8
-unwind_thorough: 10
+bound: input length <= 4 (quick tier) / <= 6 (thorough tier) over {a,b,space,:,',",\}; delimiter sets NULL, ":", " :"; inputs of class blank; loops unwound 6 / 8 (token loop 5)
+unwind: 6
+unwind_thorough: 8
+flags: --unwindset spif_tok_eval.5:5
+objbits: 10
 backend: cadical
 timeout: 900
 timeout_thorough: 4000
@@ -101,12 +111,14 @@ mem: 16
 */
 /*@unit
 name: tok.multi
-define: V_CLASS=5
+define: V_CLASS=5, VERIF_MAXLEN_Q=4, VERIF_MAXLEN_T=6, VS_OBJS=1024
 src: tok.c, str.c, dlinked_list.c, obj.c
 tier: B
-bound: input length <= 5 (quick tier) / <= 7 (thorough tier) over {a,b,space,:,',",\}; delimiter sets NULL, ":", " :"; inputs of class multi; loops unwound 8 / 10
-unwind: 8
-unwind_thorough: 10
+bound: input length <= 4 (quick tier) / <= 6 (thorough tier) over {a,b,space,:,',",\}; delimiter sets NULL, ":", " :"; inputs of class multi; loops unwound 6 / 8 (token loop 5)
+unwind: 6
+unwind_thorough: 8
+flags: --unwindset spif_tok_eval.5:5
+objbits: 10
 backend: cadical
 timeout: 900
 timeout_thorough: 4000
